@@ -28,6 +28,7 @@ structure Fn where
   heldCalls : List (Nat × Nat)   -- (mutex held, callee)
   relocks : List Nat             -- mutex locked again while lexically held
   leaks : List Nat               -- mutex locked here and still held at a return
+  heldAcq : List (Nat × Nat) := []  -- (mutex held, ANOTHER mutex locked lexically under it)
   deriving Repr
 
 def bit (m : Nat) : Nat := 1 <<< m
@@ -87,19 +88,60 @@ def rootsAvoid (tags mutexTags : List Nat) (fs : List Fn) (roots : List Nat) : B
     (List.range mutexTags.length).all fun m =>
       !(tags.contains (mutexTags.getD m 0)) || !(hasBit (r.getD f 0) m)
 
+/-! ### Lock order: no cycle among different mutexes
+
+`m → m'` when some function acquires `m'` (itself or through callees) while it holds `m`. A cycle
+`m → … → m` is the classic two-lock deadlock. The relation is collected per mutex as a mask and closed
+like the call graph; `acyclic` says no mutex reaches itself. -/
+
+/-- Direct successors of every mutex (index = mutex id): what is acquired under it anywhere. -/
+def orderSucc (nm : Nat) (fs : List Fn) (r : List Nat) : List Nat :=
+  (List.range nm).map fun m =>
+    fs.foldl (fun a f =>
+      let viaCalls := f.heldCalls.foldl (fun a' (h, g) => if h == m then a' ||| r.getD g 0 else a') a
+      f.heldAcq.foldl (fun a' (h, k) => if h == m then a' ||| bit k else a') viaCalls) 0
+
+def orderStep (succ : List Nat) (t : List Nat) : List Nat :=
+  t.zipIdx.map fun (mask, _) =>
+    (List.range succ.length).foldl (fun a k => if hasBit mask k then a ||| t.getD k 0 else a) mask
+
+def orderIter (succ : List Nat) : Nat → List Nat → List Nat
+  | 0, t => t
+  | n + 1, t => orderIter succ n (orderStep succ t)
+
+/-- `t` contains the direct successors and is transitively closed. -/
+def orderClosed (succ t : List Nat) : Bool :=
+  t.length == succ.length &&
+  (List.range succ.length).all fun m =>
+    (succ.getD m 0 &&& t.getD m 0) == succ.getD m 0 &&
+    (List.range succ.length).all fun k => !(hasBit (t.getD m 0) k) || (t.getD k 0 &&& t.getD m 0) == t.getD k 0
+
+/-- No cycle among the mutexes tagged `tags` (tag 0 counts for everybody): nobody reaches itself. The
+self-edge is excluded already by `noNested`; here it would also show, conservatively. -/
+def acyclic (tags mutexTags : List Nat) (fs : List Fn) : Bool :=
+  let r := closure fs
+  let succ := orderSucc mutexTags.length fs r
+  let t := orderIter succ 6 succ
+  wellNumbered fs && closed fs r && orderClosed succ t &&
+  (List.range mutexTags.length).all fun m => !(relevant tags mutexTags m) || !(hasBit (t.getD m 0) m)
+
+/-- f0 takes mutex 1 under mutex 0, f1 takes mutex 0 under mutex 1: a cycle; one direction only: fine. -/
+example : acyclic [1] [1, 1] [⟨0, [0, 1], [], [], [], [], [(0, 1)]⟩, ⟨1, [0, 1], [], [], [], [], [(1, 0)]⟩] = false ∧
+    acyclic [1] [1, 1] [⟨0, [0, 1], [], [], [], [], [(0, 1)]⟩, ⟨1, [0, 1], [], [], [], [], []⟩] = true := by decide
+
 /-! Sanity of the decision procedure on the two shapes it exists for (kernel-evaluated). -/
 
 /-- f0 holds mutex 0 and calls f1, which calls f2, which takes mutex 0 again: rejected. -/
-example : ok [1] [1] [⟨0, [0], [1], [(0, 1)], [], []⟩, ⟨1, [], [2], [], [], []⟩, ⟨2, [0], [], [], [], []⟩] = false := by decide
+example : ok [1] [1] [⟨0, [0], [1], [(0, 1)], [], [], []⟩, ⟨1, [], [2], [], [], [], []⟩, ⟨2, [0], [], [], [], [], []⟩] = false := by decide
 
 /-- The same call chain made after the unlock: accepted. -/
-example : ok [1] [1] [⟨0, [0], [1], [], [], []⟩, ⟨1, [], [2], [], [], []⟩, ⟨2, [0], [], [], [], []⟩] = true := by decide
+example : ok [1] [1] [⟨0, [0], [1], [], [], [], []⟩, ⟨1, [], [2], [], [], [], []⟩, ⟨2, [0], [], [], [], [], []⟩] = true := by decide
 
 /-- A path that returns with the mutex held: rejected; under another property's tag: not its business. -/
-example : ok [1] [1] [⟨0, [0], [], [], [], [0]⟩] = false ∧ ok [2] [1] [⟨0, [0], [], [], [], [0]⟩] = true := by decide
+example : ok [1] [1] [⟨0, [0], [], [], [], [0], []⟩] = false ∧ ok [2] [1] [⟨0, [0], [], [], [], [0], []⟩] = true := by decide
 
 /-- A root that reaches (two calls deep) an acquisition of the tagged mutex: rejected; of another mutex: accepted. -/
-example : rootsAvoid [2] [2, 1] [⟨0, [], [1], [], [], []⟩, ⟨1, [], [2], [], [], []⟩, ⟨2, [0], [], [], [], []⟩] [0] = false ∧
-    rootsAvoid [2] [2, 1] [⟨0, [], [1], [], [], []⟩, ⟨1, [], [2], [], [], []⟩, ⟨2, [1], [], [], [], []⟩] [0] = true := by decide
+example : rootsAvoid [2] [2, 1] [⟨0, [], [1], [], [], [], []⟩, ⟨1, [], [2], [], [], [], []⟩, ⟨2, [0], [], [], [], [], []⟩] [0] = false ∧
+    rootsAvoid [2] [2, 1] [⟨0, [], [1], [], [], [], []⟩, ⟨1, [], [2], [], [], [], []⟩, ⟨2, [1], [], [], [], [], []⟩] [0] = true := by decide
 
 end FV.Locks
